@@ -266,13 +266,20 @@ let hc_op toks =
              | Panic s -> ("", Panic s) | Hang s -> ("", Hang s) in
            (match op, rest with
             | "send", [_; chan; mode; len; seed] ->
-                finish (Ok (hc_send ep.h (payload (int_of_string len) (int_of_string seed)) (n chan) (mode_of mode)))
+                let data = payload (int_of_string len) (int_of_string seed) in
+                Printf.printf "sent %s %s %d %s\n" chan mode (List.length data) (sn (crc_compute data));
+                finish (Ok (hc_send ep.h data (n chan) (mode_of mode)))
             | "step", [_; now] -> finish (hc_step ep.h (n now))
             | "flush", _ ->
                 (match hc_flush ep.h with
                  | Ok (h', frames) ->
                      List.iter (fun f ->
                        Printf.printf "frame %d %s\n" (List.length f) (hex_of_bytes f);
+                       (match read_frame f with
+                        | Ok (Some (FData (_, _, dgs))) ->
+                            List.iter (fun d -> Printf.printf "dg %s %s %s %s %d %s\n" (sn d.dg_seq) (sn d.dg_frag) (sn d.dg_frag_last)
+                                                  (sn d.dg_chan) (List.length d.dg_data) (sn (crc_compute d.dg_data))) dgs
+                        | _ -> ());
                        if ep.nout >= Array.length ep.outbox then begin
                          let a = Array.make (2 * ep.nout) [] in Array.blit ep.outbox 0 a 0 ep.nout; ep.outbox <- a end;
                        ep.outbox.(ep.nout) <- f; ep.nout <- ep.nout + 1) frames;
